@@ -1268,6 +1268,15 @@ int32 matrixSslEncodeToOutdata(ssl_t *ssl, unsigned char *ptBuf, uint32 len)
                 rc);
             return rc;
         }
+# ifdef USE_DTLS
+        if (ACTV_VER(ssl, v_dtls_any) && (uint32) rc < len)
+        {
+            /* The write buffer (sized for the PMTU) takes less than the size
+               estimate above allowed: refuse, a datagram is never split
+               over two records */
+            return PS_LIMIT_FAIL;
+        }
+# endif
         recLen = fragLen = min((uint32) rc, len);
         psAssert(ssl->outsize > 0 && ssl->outbuf != NULL);
 
